@@ -356,12 +356,22 @@ pub fn judge(
         }
     }
     // verdict reference first (it must not see state left by anything else)
+    // The reference process evaluates the calls in REVERSE history order:
+    // a cache or memo inside the library that is keyed without the thread's
+    // mode would otherwise see the same access pattern on both sides and make
+    // both sides equally wrong (seeded change s19).  On correct code the
+    // order cannot matter: every call is a function of (operands, mode).
+    let reversed: Vec<(Op, u8)> = items.iter().rev().cloned().collect();
     let external: Option<Vec<String>> = if other_process && !items.is_empty() {
         stats.ref_process_runs += 1;
-        Some(reference_in_other_process(&items)?)
+        let mut a = reference_in_other_process(&reversed)?;
+        a.reverse();
+        Some(a)
     } else if let (Some(srv), false) = (server, items.is_empty()) {
         stats.ref_server_runs += 1;
-        Some(srv.eval(&items)?)
+        let mut a = srv.eval(&reversed)?;
+        a.reverse();
+        Some(a)
     } else {
         None
     };
